@@ -41,6 +41,14 @@ m("c01-and-instead-of-or", "C01", "first || of the conflict predicate becomes &&
                             && fn_borrow_muts
                                 .iter()
                                 .any(|left| fn_next_borrows""", 1))
+m("c01-all-instead-of-any", "C01", "write x read clause quantified with all() instead of any()",
+  (AUG, """                            || fn_borrow_muts
+                                .iter()
+                                .any(|left| fn_next_borrows.iter().any(|right| left == right))""", """                            || fn_borrow_muts
+                                .iter()
+                                .all(|left| fn_next_borrows.iter().any(|right| left == right))""", 1))
+m("c01-ne-instead-of-eq", "C01", "write x read clause compares declared types with != instead of ==",
+  (AUG, """.any(|left| fn_next_borrows.iter().any(|right| left == right))""", """.any(|left| fn_next_borrows.iter().any(|right| left != right))""", 1))
 m("c01-counts-before-augment", "C01", "predecessor counts are computed before data-edge augmentation",
   (BLD, """        DataEdgeAugmenter::augment(&mut graph, &ranks);
         #[cfg(feature = "async")]
